@@ -245,8 +245,8 @@ func (r *Report) Finish() int {
 		"wall_s":      wall,
 		"violations":  unknownViol,
 	}
-	if ev["assumptions"] == nil {
-		ev["assumptions"] = []string{}
+	if len(r.Assumptions) == 0 {
+		ev["assumptions"] = []string{"none beyond the trusted base stated in MANIFEST.level_note"}
 	}
 	b, _ := json.MarshalIndent(ev, "", " ")
 	os.MkdirAll(filepath.Join(VerifDir, "evidence"), 0o755)
